@@ -318,7 +318,8 @@ func (s MinPriorityCoinSelector) CoinSelect(targetValue bchutil.Amount, coins []
 				}
 
 				extendedCoins.PushCoin(possibleCoins[n])
-				if extendedCoins.TotalValueAge()/int64(extendedCoins.Num()) < s.MinAvgValueAgePerInput {
+				if extendedCoins.TotalValueAge()/int64(extendedCoins.Num()) < s.MinAvgValueAgePerInput ||
+					!satisfiesTargetValue(targetValue, s.MinChangeAmount, extendedCoins.TotalValue()) {
 					extendedCoins.PopCoin()
 					continue
 				}
